@@ -95,6 +95,7 @@ type rawChan struct {
 	conn *uacp.Conn
 	sc   *uasc.SecureChannel
 	errs chan error
+	cert []byte // client certificate sent in CreateSession (secured channels)
 }
 
 func openRaw(url string, cfg *uasc.Config) (*rawChan, error) {
@@ -158,6 +159,7 @@ func (r *rawChan) createSession(url string) (*ua.NodeID, error) {
 		EndpointURL:             url,
 		SessionName:             "verif",
 		ClientNonce:             nonce,
+		ClientCertificate:       r.cert,
 		RequestedSessionTimeout: 3600000,
 	}
 	resp, err := r.send(req, nil)
